@@ -7,6 +7,7 @@ import PenneModel.Lex.Model
 import PenneModel.Lit.Model
 import PenneModel.Sem.Parse
 import PenneModel.Sem.Layout
+import PenneModel.Cli.Decide
 /-
   Model driver: one request per line on stdin (`OP<TAB>payload`), one answer per line on stdout.
   Only model files are imported (no Mathlib, no proof files), so this links as a native executable.
@@ -90,6 +91,27 @@ def c09 (payload : String) : String :=
       else "not-literals"
   | _ => "bad-request"
 
+def optAtom (s : String) : Option String := if s == "-" then none else some s
+
+def c18 (payload : String) : String :=
+  match Sexp.parse payload with
+  | some (.list [.atom "inv", .atom sub, .atom flag, .atom env, .atom cfg, .atom ok, .atom be, .atom silent, .atom verbose]) =>
+    let sub? : Option Cli.Sub := match sub with
+      | "build" => some .build | "run" => some .run | "emit" => some .emit | _ => none
+    let be? : Option Cli.BackendResult :=
+      if be == "signalled" then some .signalled else if be == "spawnfailed" then some .spawnFailed
+      else be.toNat?.map .exited
+    match sub?, be? with
+    | some sub, some be =>
+      let i : Cli.Invocation := { sub := sub, flagBackend := optAtom flag, envBackend := optAtom env, cfgBackend := optAtom cfg,
+                                  compileOk := ok == "1", backend := be, silent := silent == "1", verbose := verbose == "1" }
+      "exit0=" ++ (if Cli.exitZero i then "1" else "0") ++ " backend=" ++ ((Cli.chosenBackend i).getD "-")
+        ++ " invoked=" ++ (if Cli.backendInvoked i then "1" else "0")
+        ++ " output=" ++ (match Cli.shownOutput i with | some n => toString n | none => "-")
+        ++ " diags=" ++ (if Cli.diagnosticsShown i then "1" else "0")
+    | _, _ => "bad-request"
+  | _ => "bad-request"
+
 def handle (op payload : String) : String :=
   match op with
   | "C04" =>
@@ -127,6 +149,7 @@ def handle (op payload : String) : String :=
       | some sizes => toString (Layout.typerWordSize sizes)
       | none => "bad-request"
     | _ => "bad-request"
+  | "C18" => c18 payload
   | "C09" => c09 payload
   | "lex" =>
     match Sexp.parse payload with
